@@ -48,6 +48,9 @@ def units():
     for n in ("TakeUntil", "TypeEraseNext"):
         if hasattr(stream_proto, n):
             us.append(getattr(stream_proto, n)())
+    only = os.environ.get("VERIF_C13_ONLY")       # development: run one unit only
+    if only:
+        us = [u for u in us if u.name == only]
     return us
 
 
